@@ -489,6 +489,7 @@ class Sim:
         CUR = self
         self.anomalies = []
         self.proc_problems = []
+        self.torn_down = False
         self.launches = []  # per successful ProcessLauncher.start: which node's own daemon each returned node tracks
         self.daemons = {}  # node id -> {"pid", "inst"} (ground truth: the pid file in the node's own installation)
         self.process_backend = (spec.get("ambient") or {}).get("launcher") == "process"
@@ -827,6 +828,8 @@ class Sim:
             return actor.BenchmarkFailure("Error on host injected")
         if t == "wakeup":
             return ta.WakeupMessage(30, None)
+        if t == "exitReq":
+            return ta.ActorExitRequest()
         if t == "poison":
             return ta.PoisonMessage(self.build(m[1]), "Traceback (injected)")
         if t == "conv":
@@ -910,6 +913,8 @@ class Sim:
                 if inj:
                     steps = inj[0][0]
                     continue
+                if self._tear_down():
+                    continue
                 self.quiescent = True
                 break
             self.do(en[self.rng.randrange(len(en))])
@@ -918,6 +923,20 @@ class Sim:
             return self.finish()
         finally:
             shutil.rmtree(self.tmp, ignore_errors=True)
+
+    def _tear_down(self):
+        """racecontrol.race(): when the race ends without StopEngine (a BenchmarkFailure reached race control, or the plan never
+        stops) the benchmark actor is told to exit and Thespian hands ActorExitRequest down the tree of created actors; here: to
+        every node actor that is alive and paired with a host group, from its creator.  Once per history, at quiescence."""
+        if not self.spec.get("teardown") or self.torn_down or not self.rc_sent_start or self.rc_sent_stop:
+            return False
+        self.torn_down = True
+        done = False
+        for k in sorted(self.k2h, key=lambda x: int(x[1:])):
+            if k in self.actors:
+                self.do(["inject", "disp", k, ["exitReq"]])
+                done = True
+        return done
 
     def _resolve_inject(self, s, d, m):
         """injections name node actors by group (n<h>); returns the event with simulator names, or None if
@@ -985,6 +1004,7 @@ class Sim:
                 except ChildProcessError:
                     break
         return {
+            "torn_down": self.torn_down,
             "processes": processes,
             "launches": self.launches,
             "proc_problems": self.proc_problems,
